@@ -1123,3 +1123,93 @@ Definition run_vol_with_array (shape ashape channels : list Z) (sp : sarg)
   vres (vvol to ashape probes)
        (bind (geom_from_components shape sp position center direction (ochars po) patient_cs)
              (fun G => geom_with_array G ashape channels)).
+
+(* ------------------------------------------------------------------ *)
+(* rounded routes from a source image to a coplanar target image       *)
+(* (every default: round_output=True of PixelToPixel, ReferenceToPixel *)
+(* and VolumeGeometry.map_reference_to_indices; np.around = [rne])     *)
+(* ------------------------------------------------------------------ *)
+Definition vz3 (l : list (Z * Z * Z)) : val :=
+  VL (map (fun t => let '(a, b, c) := t in VL [VZ a; VZ b; VZ c]) l).
+Definition g_map_reference_to_indices_rounded (G : geom) (pts : list vec) : res (list (Z * Z * Z)) :=
+  bind (g_map_reference_to_indices G pts) (fun l => Ok (round3 l)).
+(* [ PixelToPixel(from, to)(p);
+     ReferenceToPixel(to)(x)  with  x = PixelToReference(from)(p);
+     ReferenceToPixel(to, round_output=False)(x);
+     ReferenceToPixel(to, drop_slice_index=True)(x);
+     [map_coordinate_into_pixel_matrix(x_k, to)  for every row x_k of x];
+     [G.map_reference_to_indices(x, round_output=True); G.map_reference_to_indices(x)]
+       with G = VolumeGeometry.from_attributes(to, number_of_frames=1, rows, columns) ] *)
+Definition run_round_routes (pf of_ sf pt ot st : arg) (rows cols : Z) (pts : list (list Q)) : val :=
+  match rows2 pts with
+  | Err k => VErr k
+  | Ok l =>
+    match p2p_make pf of_ sf pt ot st, p2r_make pf of_ sf, r2p_make pt ot st 1 with
+    | Ok T, Ok P, Ok Rv =>
+        let x := call_2to3 P l in
+        VL [vpts (p2p_call T true l);
+            vres vpts (r2p_call Rv true false x);
+            vres vpts (r2p_call Rv false false x);
+            vres vpts (r2p_call Rv true true x);
+            VL (map (fun v => vres (fun t => vz3 [t]) (map_coordinate_into_pixel_matrix v pt ot st 1)) x);
+            vres (fun G => VL [vres vz3 (g_map_reference_to_indices_rounded G x);
+                               vres (fun r => VL (map vvec r)) (g_map_reference_to_indices G x)])
+                 (geom_from_attributes pt ot st 1 1 rows cols)]
+    | Err k, _, _ => VErr k
+    | _, Err k, _ => VErr k
+    | _, _, Err k => VErr k
+    end
+  end.
+
+(* ------------------------------------------------------------------ *)
+(* histories: what a caller does between two uses of ONE transformer   *)
+(* object.  The state of the object is its matrix; the `affine`        *)
+(* property hands out a copy and __call__ allocates its result, so no  *)
+(* step changes the state.  (Arrays are values here: the aliasing that *)
+(* a real implementation could introduce is outside the model - the    *)
+(* model states what the histories must observe.)                      *)
+(* ------------------------------------------------------------------ *)
+Inductive hop :=
+| HAffineEdit (k : Q) (t : vec)   (* a = T.affine; a[:3, :3] *= k; a[:3, 3] += t  - in place, on the RETURNED array *)
+| HOutputEdit                     (* in-place edit of the array returned by the previous __call__ *)
+| HInputEdit                      (* in-place edit of the arrays handed to the constructor / to the previous __call__ *)
+| HCall.                          (* nothing in between *)
+Definition edit_aff (k : Q) (t : vec) (A : aff) : aff :=
+  Aff (M3 (smul k (c0 (lin A))) (smul k (c1 (lin A))) (smul k (c2 (lin A)))) (vadd (tr A) t).
+(* new state of the object, and the value of the caller's own array after the step (if it has one) *)
+Definition hstep (A : aff) (op : hop) : aff * option aff :=
+  match op with
+  | HAffineEdit k t => (A, Some (edit_aff k t A))
+  | _ => (A, None)
+  end.
+(* after every step: [the caller's edited array | None; T.affine; T(points)] *)
+Fixpoint hist (A : aff) (ops : list hop) (obs : aff -> val) : list val :=
+  match ops with
+  | [] => []
+  | op :: r =>
+      let '(A', mine) := hstep A op in
+      VL [match mine with Some a => vaff a | None => VNone end; obs A'] :: hist A' r obs
+  end.
+Definition hobs (call : aff -> val) (A : aff) : val := VL [vaff A; call A].
+(* [[T.affine; T(points)] of the fresh object; then one entry per step] *)
+Definition run_history (mk : res aff) (call : aff -> val) (ops : list hop) : val :=
+  match mk with
+  | Ok A => VL [hobs call A; VL (hist A ops (hobs call))]
+  | Err k => VErr k
+  end.
+(* the __call__ bodies as observation functions (same as in run_p2r ... run_i2i) *)
+Definition hcall_p2r (pts : list (list Q)) (A : aff) : val := call_p 2 true pts (fun l => VL (map vvec (call_2to3 A l))).
+Definition hcall_i2r (pts : list (list Q)) (A : aff) : val := call_c2 2 pts (fun l => VL (map vvec (call_2to3 A l))).
+Definition hcall_r2p (round drop : bool) (pts : list (list Q)) (A : aff) : val :=
+  call_c3 3 pts (fun l => vres vpts (r2p_call A round drop l)).
+Definition hcall_r2i (drop : bool) (pts : list (list Q)) (A : aff) : val :=
+  call_c3 3 pts (fun l => vres vpts (r2i_call A drop l)).
+Definition hcall_p2p (round : bool) (pts : list (list Q)) (A : aff) : val :=
+  call_p 2 true pts (fun l => vpts (p2p_call A round l)).
+Definition hcall_i2i (pts : list (list Q)) (A : aff) : val := call_c2 2 pts (fun l => vpts (OutQ2 (call_2to2 A l))).
+(* VolumeGeometry: [map_indices_to_reference(points); map_reference_to_indices(points)] *)
+Definition hcall_geom (pts : list (list Q)) (A : aff) : val :=
+  call_c3 3 pts (fun l => VL [VL (map vvec (call_3to3 A l));
+                              vres (fun r => VL (map vvec r)) (g_map_reference_to_indices (Geom A [1%Z; 1%Z; 1%Z]) l)]).
+Definition geom_aff (pos ori sp : arg) (ss : Q) (nf rows cols : Z) : res aff :=
+  bind (geom_from_attributes pos ori sp ss nf rows cols) (fun G => Ok (g_aff G)).
